@@ -6,6 +6,7 @@ consistent order; optimality test and entering rule use complementary predicates
 enabled by the stall counter and selects the smallest index; ratio test over positive entries
 with smallest-basis-index tie break).  Not decided: the tableau invariants themselves (numeric).
 """
+import re
 from facts import norm, base_ty, walk, strip, sexp
 from interp import Interp, is_unknown
 import table
@@ -161,3 +162,74 @@ def check(F, R):
     loops(F, R)
     predicates(F, R)
     state(F, R)
+    canonical_start(F, R)
+
+
+def canonical_start(F, R):
+    """T-CANON: structure of the canonical start (direct basis and two-phase drive-out).
+    - direct basis: each selected row is normalised (matrix row and right-hand side) BEFORE its
+      right-hand side is used to build the objective constant and before the costs are reduced;
+    - drive-out: an artificial that stays basic at level 0 is pivoted out on ANY structural column
+      with a non-zero entry; its row may be dropped as redundant only when no such column exists
+      (a sign test instead of a non-zero test drops genuine constraints);
+    - phase-1 verdict: infeasible iff the phase-1 optimum differs from 0 (float_ne)."""
+    SLM = "transformers::standard_linear_model::StandardLinearModel::"
+    f = F.fn(SLM + "into_tableau")
+    if f is None:
+        R.ob("T-CANON", "into_tableau:anchor", False, "", "not found")
+    else:
+        R.fn(f["path"])
+        loops = [l for l in walk(f["body"]) if l.get("k") == "For" and any(x.get("k") == "Call" and norm(x.get("callee") or "").endswith("divide_matrix_row_by") for x in walk(l["body"]))]
+        ok = False
+        detail = "normalisation loop not found"
+        if len(loops) == 1:
+            items = strip(loops[0]["body"]).get("stmts", [])
+            pos = {}
+            for i, s in enumerate(items):
+                t = sexp(s)
+                if "divide_matrix_row_by(" in t:
+                    pos.setdefault("row", i)
+                if re.search(r"b\[.*\] /= ", t):
+                    pos.setdefault("rhs", i)
+                if re.search(r"^value -= \(amount \* b\[", t) or re.search(r"value -= \(amount \* b\[", t):
+                    pos.setdefault("value", i)
+                if "c[index] -= (amount * *coefficient)" in t or re.search(r"c\[index\] -= \(amount \* \*?coefficient\)", t):
+                    pos.setdefault("costs", i)
+            ok = {"row", "rhs", "value", "costs"} <= set(pos) and pos["row"] < pos["costs"] and pos["rhs"] < pos["value"]
+            detail = "statement order in the loop body: %s" % sorted(pos.items(), key=lambda kv: kv[1])
+        R.ob("T-CANON", "direct-basis:normalise-before-use", ok, F.loc(f), "the basic row and its right-hand side must be divided by the basic coefficient before the costs are reduced with that row and before b[row] enters the objective constant: " + detail)
+    g = F.fn(SLM + "into_tableau_two_phase")
+    if g is None:
+        R.ob("T-CANON", "two-phase:anchor", False, "", "not found")
+        return
+    R.fn(g["path"])
+    # drive-out pivot search
+    finds = [x for x in walk(g["body"]) if x.get("k") == "MCall" and x["name"] == "find" and x["args"] and strip(x["args"][0]).get("k") == "Closure"]
+    ok = False
+    detail = "pivot-column search not found"
+    for x in finds:
+        body = strip(strip(x["args"][0])["body"])
+        t = sexp(body)
+        if "a[row]" in t:
+            nonzero = (body.get("k") == "Call" and norm(body.get("callee") or "").endswith("math_utils::float_ne") and sexp(strip(body["args"][1])) == "0.0") or (body.get("k") == "Binary" and body["op"] == "!=" and sexp(strip(body["b"])) == "0.0")
+            rng = sexp(strip(x["recv"]))
+            ok = nonzero and "number_of_variables" in rng and rng.startswith("std::ops::Range{start: 0") or (nonzero and "Range{start: 0, end: number_of_variables}" in rng)
+            detail = "search `%s.find(|j| %s)`" % (rng, t)
+    R.ob("T-CANON", "drive-out:non-zero-pivot", ok, F.loc(g), "an artificial basic at level 0 must be pivoted out on any structural column with a NON-ZERO entry (the right-hand side is 0, so the sign is irrelevant); only a row without structural support is redundant: " + detail)
+    # the None arm is the only producer of rows_to_drop
+    pushes = [x for x in walk(g["body"]) if x.get("k") == "MCall" and x["name"] == "push" and sexp(strip(x["recv"])) == "rows_to_drop"]
+    in_none = False
+    for m in walk(g["body"]):
+        if m.get("k") == "Match" and sexp(strip(m["scrut"])) == "pivot_col":
+            for arm in m["arms"]:
+                if sexp(arm["pat"]).endswith("None") and len(pushes) == 1 and any(y is pushes[0] for y in walk(arm["body"])):
+                    in_none = True
+    R.ob("T-CANON", "drive-out:drop-only-unsupported-rows", in_none, F.loc(g), "rows are dropped only in the `None` arm of the pivot-column search (%d push site(s))" % len(pushes))
+    # skip rows whose basic variable is structural
+    conds = [sexp(strip(i["cond"])) for i in walk(g["body"]) if i.get("k") == "If"]
+    R.ob("T-CANON", "drive-out:only-artificial-rows", "(basis[row] < number_of_variables)" in conds, F.loc(g), "the drive-out only touches rows whose basic variable is artificial: conditions %s" % conds[:4])
+    # phase-1 verdict
+    R.ob("T-CANON", "phase1:infeasible-iff-nonzero", any("float_ne(tableau.current_value(), 0.0)" in c for c in conds), F.loc(g), "phase 1 declares infeasibility iff its optimum differs from 0")
+    # artificial columns: unit entry at i + number_of_variables, cost 1, basis entry, value -= b[i]
+    t = sexp(g["body"])
+    R.ob("T-CANON", "phase1:artificial-columns", "constraint[(i + number_of_variables)] = 1.0" in t and "c[(number_of_variables + i)] = 1.0" in t and "basis[i] = (number_of_variables + i)" in t and "value -= b[i]" in t and "c[j] -= *coefficient" in t.replace("c[j] -= coefficient", "c[j] -= *coefficient"), F.loc(g), "artificial i gets a unit entry in row i, cost 1 and is basic in row i; the phase-1 costs and value are reduced by every row")
